@@ -53,6 +53,17 @@ func Reset() {
 	Covered = map[string]bool{}
 }
 
+// ResetAndLoad clears per-run state and re-reads $VND_REPLAY.
+func ResetAndLoad() {
+	mu.Lock()
+	defer mu.Unlock()
+	counts = map[string]int{}
+	Ghosts = nil
+	Covered = map[string]bool{}
+	loaded = false
+	load()
+}
+
 func key(name string) string {
 	n := counts[name]
 	counts[name] = n + 1
